@@ -345,7 +345,11 @@ func (tl *loader) reload(keys, dropKeys []string) {
 			log.Printf("[INFO] still need to load %d shards...", len(keys)-i)
 			lastProgress = time.Now()
 
-			publishLoaded()
+			// Only during start-up: once we are serving, publishing a part of
+			// a reload would mix old and new shards of one repository.
+			if !tl.ss.ready.Load() {
+				publishLoaded()
+			}
 		}
 
 		_ = sem.Acquire(context.Background(), 1)
